@@ -109,6 +109,7 @@ impl ArrayShardedReadableExtCache {
         &self,
         array: &Array<TStorage>,
         shard_indices: &[u64],
+        options: &CodecOptions,
     ) -> Result<MaybeShardingPartialDecoder, ArrayError> {
         let mut cache = self.cache.lock().unwrap();
         if let Some(partial_decoder) = cache.get(shard_indices) {
@@ -147,7 +148,7 @@ impl ArrayShardedReadableExtCache {
                     sharding_codec.inner_codecs.clone(),
                     &sharding_codec.index_codecs,
                     sharding_codec.index_location,
-                    &CodecOptions::default(),
+                    options,
                 )?));
             // // TODO: Trait upcasting
             // let partial_decoder = array
@@ -163,7 +164,7 @@ impl ArrayShardedReadableExtCache {
             Ok(partial_decoder)
         } else {
             let partial_decoder =
-                MaybeShardingPartialDecoder::Other(array.partial_decoder(shard_indices)?);
+                MaybeShardingPartialDecoder::Other(array.partial_decoder_opt(shard_indices, options)?);
             cache.insert(shard_indices.to_vec(), partial_decoder.clone());
             Ok(partial_decoder)
         }
@@ -358,7 +359,8 @@ impl<TStorage: ?Sized + ReadableStorageTraits + 'static> ArrayShardedReadableExt
         if cache.array_is_exclusively_sharded() {
             let (shard_indices, chunk_indices) =
                 inner_chunk_shard_index_and_chunk_index(self, cache, inner_chunk_indices)?;
-            let partial_decoder = cache.retrieve(self, &shard_indices)?;
+            let partial_decoder =
+                cache.retrieve(self, &shard_indices, &CodecOptions::default())?;
             let MaybeShardingPartialDecoder::Sharding(partial_decoder) = partial_decoder else {
                 unreachable!("exlusively sharded")
             };
@@ -384,7 +386,8 @@ impl<TStorage: ?Sized + ReadableStorageTraits + 'static> ArrayShardedReadableExt
         if cache.array_is_exclusively_sharded() {
             let (shard_indices, chunk_indices) =
                 inner_chunk_shard_index_and_chunk_index(self, cache, inner_chunk_indices)?;
-            let partial_decoder = cache.retrieve(self, &shard_indices)?;
+            let partial_decoder =
+                cache.retrieve(self, &shard_indices, &CodecOptions::default())?;
             let MaybeShardingPartialDecoder::Sharding(partial_decoder) = partial_decoder else {
                 unreachable!("exlusively sharded")
             };
@@ -413,7 +416,7 @@ impl<TStorage: ?Sized + ReadableStorageTraits + 'static> ArrayShardedReadableExt
         if cache.array_is_sharded() {
             let (shard_indices, shard_subset) =
                 inner_chunk_shard_index_and_subset(self, cache, inner_chunk_indices)?;
-            let partial_decoder = cache.retrieve(self, &shard_indices)?;
+            let partial_decoder = cache.retrieve(self, &shard_indices, options)?;
             let bytes = partial_decoder
                 .partial_decode(&[shard_subset], options)?
                 .remove(0)
@@ -559,7 +562,7 @@ impl<TStorage: ?Sized + ReadableStorageTraits + 'static> ArrayShardedReadableExt
                             let shard_subset = self.chunk_subset(&shard_indices)?;
                             let shard_subset_overlap = shard_subset.overlap(array_subset)?;
                             let bytes = cache
-                                .retrieve(self, &shard_indices)?
+                                .retrieve(self, &shard_indices, &options)?
                                 .partial_decode(
                                     &[shard_subset_overlap.relative_to(shard_subset.start())?],
                                     &options,
@@ -604,7 +607,7 @@ impl<TStorage: ?Sized + ReadableStorageTraits + 'static> ArrayShardedReadableExt
                                 //     &options,
                                 // )?;
                                 let bytes = cache
-                                    .retrieve(self, &shard_indices)?
+                                    .retrieve(self, &shard_indices, &options)?
                                     .partial_decode(
                                         &[shard_subset_overlap
                                             .relative_to(shard_subset.start())?],
